@@ -686,7 +686,8 @@ where
                 (None, c @ (b'"' | b'\'')) => escape = Some(Escape::Quote(c)),
                 (None, b'\\') => escape = Some(Escape::Slash),
                 (None, c @ (b' ' | b'\t' | b'\n')) => {
-                    if !result.is_empty() {
+                    // (`in_token`, not `!result.is_empty()`: '' is an argument)
+                    if in_token {
                         terminated_by_newline = c == b'\n';
                         break;
                     }
